@@ -196,7 +196,12 @@ func runWorker(bin, scratch string, job *Job, timeout time.Duration) ([]map[stri
 	jf.Write(b)
 	jf.Close()
 	cmd := exec.Command(bin, "-test.run", "^TestWorker$", "-test.timeout", "0")
-	cmd.Env = append(os.Environ(), "VERIF_JOB="+jf.Name(), "GOMEMLIMIT=6GiB")
+	// the workers' temporary directories (recordings, static files) live in
+	// the scratch directory of this check, which is removed when it ends: a
+	// worker that is killed (wall budget, recycling) leaves nothing behind
+	wtmp := filepath.Join(scratch, "tmp")
+	os.MkdirAll(wtmp, 0700)
+	cmd.Env = append(os.Environ(), "VERIF_JOB="+jf.Name(), "GOMEMLIMIT=6GiB", "TMPDIR="+wtmp)
 	var stderr bytes.Buffer
 	cmd.Stdout = &stderr
 	cmd.Stderr = &stderr
